@@ -90,6 +90,7 @@ AdmtCases == {[kind |-> "admt", order |-> o, g |-> g, psi |-> psi, p |-> f, a |-
 UnitExps == <<0, -3, 3>>
 \* only the direction of grad psi enters D: the ADMT operator is unchanged when the flux map is multiplied by 10^e
 FluxScaleExps == <<0, -8, 8>>
+\* (the flux maps take integer values at the cell centres: handed over as an integer array they give the same operator)
 VARIABLE c
 Init == (\E o \in Orders : c \in DerivCases(o)) \/ c \in AdmtCases
 Next == UNCHANGED c
